@@ -111,7 +111,7 @@ static std::string gen_step(Src& s) {
     // count <= 200 iterations; extremes: last at the type's maximum with a step that keeps last+step representable for signed types
     uint64_t count = gen_small_size(s, (uint64_t)s.range(1, 4), part == 0 ? 64 : 200);
     std::string f, l, st;
-    uint32_t mode = s.weighted({ 5, 2, 2 });
+    uint32_t mode = s.weighted({ 5, 2, 2, 2 });
     if (vt == "u8") { uint64_t step = (uint64_t)s.range(1, 5); count = std::min<uint64_t>(count, 250 / step); uint64_t first = (uint64_t)s.range(0, (int)(255 - count * step)); uint64_t last = count ? first + (count - 1) * step + 1 + (uint64_t)s.range(0, (int)std::min<uint64_t>(step - 1, 255 - (first + (count - 1) * step + 1))) : first; f = u64s(first); l = u64s(last); st = u64s(step); }
     else if (mode == 0 || count == 0) {
         long long step = s.range(1, 7); long long first = vt == "u64" ? s.range(0, 50) : s.range(-50, 50); if (first == -50) first = 0;
@@ -122,6 +122,12 @@ static std::string gen_step(Src& s) {
         count = std::max<uint64_t>(1, std::min<uint64_t>(count, 40));
         uint64_t step = mx / (count + 2); if (step == 0) step = 1; step -= (uint64_t)s.range(0, 3); if ((int64_t)step <= 0 && vt != "u64") step = 1;
         uint64_t first = (uint64_t)s.range(0, 9); uint64_t last = first + (count - 1) * step + 1 + (uint64_t)s.range(0, 2);
+        f = u64s(first); l = u64s(last); st = u64s(step);
+    } else if (mode == 3) {   // span and step both close to the type's maximum: (last - first) + step exceeds it, few iterations
+        uint64_t mx = vt == "i32" ? (uint64_t)INT_MAX : vt == "i64" ? (uint64_t)LLONG_MAX : ~0ull;
+        uint64_t first = (uint64_t)s.range(0, 9), last = mx - (uint64_t)s.range(0, 3);
+        uint64_t step = s.flip() ? mx / (uint64_t)s.range(1, 40) - (uint64_t)s.range(0, 3) : (mx >> 1) + 1 + (uint64_t)s.range(0, 3);
+        if (step == 0 || step > mx) step = mx;
         f = u64s(first); l = u64s(last); st = u64s(step);
     } else {                  // first near the minimum / last at the maximum, small count
         count = std::max<uint64_t>(1, std::min<uint64_t>(count, 60)); uint64_t step = (uint64_t)s.range(1, 9);
